@@ -17,6 +17,7 @@
 from __future__ import annotations
 
 from collections import deque
+from itertools import product
 
 from ..lang import Atomic, Constant, Operator, Predicate, Predicated
 from ..models import ValueCPL
@@ -74,23 +75,26 @@ class Model(LogicType.Model[Meta.values]):
 
     def _agument_extension_with_identicals(self, pred: Predicate, w):
         interp = self.frames[w].predicates[pred]
-        for c in self.constants:
-            identicals = self._get_identicals(c, w)
-            to_add = set()
-            for params in interp.having('T'):
-                if c in params:
-                    for new_c in identicals:
-                        to_add.add(substitute(params, c, new_c))
-            for params in to_add:
-                interp[params] = 'T'
+        to_add = set()
+        for params in interp.having('T'):
+            # Each parameter can be replaced by any of its identicals.
+            options = ({c, *self._get_identicals(c, w)} for c in params)
+            to_add.update(product(*options))
+        for params in to_add:
+            interp[params] = 'T'
 
     def _get_identicals(self, c: Constant, w=0) -> set[Constant]:
         interp = self.frames[w].predicates[Predicate.Identity]
-        identicals = set()
-        update = identicals.update
-        for params in interp.having('T'):
-            if c in params:
-                update(params)
+        identicals = {c}
+        # Identity is symmetric and transitive, so follow the chain.
+        changed = True
+        while changed:
+            changed = False
+            for params in interp.having('T'):
+                if identicals.isdisjoint(params) or identicals.issuperset(params):
+                    continue
+                identicals.update(params)
+                changed = True
         identicals.discard(c)
         return identicals
 
